@@ -297,6 +297,49 @@ impl Engine for C20 {
             steps.push(Step { op: Op::Extract { kind: XKind::Copy, checked: true, by: By::Key(1), dest: Dest::Absent }, fl: Fl::Async });
             out.push(Case::Program { prog: Program { keys: hkeys, blobs: hblobs, steps }, root: Root::Dir });
         }
+        // one bucket holding records of two keys in every order of write / removal / re-write
+        // (reference-written foreign records), then the listing and the raw listing
+        for order in 0..6usize {
+            let fr = |k: usize, b: usize| Step { op: Op::ForeignRecord { bucket_of: 0, key: k, addr: AddrRef { algo: crate::blob::Algo::Sha256, blob: b } }, fl: Fl::Sync };
+            let ft = |k: usize| Step { op: Op::ForeignTombstone { bucket_of: 0, key: k }, fl: Fl::Sync };
+            let seq: Vec<Step> = match order {
+                0 => vec![fr(0, 0), fr(1, 1), ft(0), fr(1, 0)],
+                1 => vec![fr(1, 1), fr(0, 0), ft(1), fr(0, 1), fr(1, 1)],
+                2 => vec![fr(0, 0), fr(1, 1), ft(1), ft(0), fr(1, 0), fr(0, 1)],
+                3 => vec![fr(1, 0), ft(1), fr(0, 1), fr(1, 1), ft(0)],
+                4 => vec![fr(0, 0), fr(1, 1), fr(0, 1), ft(0), ft(1), fr(1, 0), fr(1, 1)],
+                _ => vec![ft(0), ft(1), fr(0, 0), fr(1, 0), ft(0), fr(1, 1), fr(0, 1), ft(1)],
+            };
+            let mut steps = seq;
+            for fl in [Fl::Sync, Fl::Async] {
+                steps.push(Step { op: Op::List, fl });
+                steps.push(Step { op: Op::IdxLs, fl });
+                steps.push(Step { op: Op::Meta { key: 0 }, fl });
+                steps.push(Step { op: Op::Meta { key: 1 }, fl });
+            }
+            out.push(Case::Program { prog: Program { keys: keys.clone(), blobs: blobs.clone(), steps }, root: Root::Dir });
+        }
+        // index records of 70 KB and 400 KB as the newest of their bucket, then every read-side call
+        for raw_len in [18_000usize, 100_000] {
+            let mut w = WriteSpec::simple(Some(0), 1);
+            w.entry = WEntry::Opts;
+            w.raw_metadata = Some(crate::gen::huge_raw_meta(raw_len, 3));
+            w.metadata = Some(serde_json::Value::String("m".repeat(raw_len / 4)));
+            let mut steps = vec![Step { op: Op::Write(w), fl: Fl::Sync }];
+            for fl in [Fl::Sync, Fl::Async] {
+                steps.push(Step { op: Op::Meta { key: 0 }, fl });
+                steps.push(Step { op: Op::IdxFind { key: 0 }, fl });
+                steps.push(Step { op: Op::Read { key: 0 }, fl });
+                steps.push(Step { op: Op::Stream { by: By::Key(0), bufs: vec![] }, fl });
+                for kind in [XKind::Copy, XKind::HardLink] {
+                    steps.push(Step { op: Op::Extract { kind, checked: true, by: By::Key(0), dest: Dest::Absent }, fl });
+                }
+                steps.push(Step { op: Op::List, fl });
+                steps.push(Step { op: Op::Remove { key: 0 }, fl });
+                steps.push(Step { op: Op::Meta { key: 0 }, fl });
+            }
+            out.push(Case::Program { prog: Program { keys: keys.clone(), blobs: blobs.clone(), steps }, root: Root::Dir });
+        }
         out.push(Case::Sabotage { len: 6 << 20, rounds: 6 });
         out.push(Case::Sabotage { len: 300_000, rounds: 12 });
         // a writer opened while 70 / 140 / 300 others are open in the same process
